@@ -209,7 +209,14 @@ DF_TIE = (" The model is tied to the source on every run: the unmodified header 
 
 def register(PROPS, COMPONENTS):
     COMPONENTS["deferred"] = dict(client="deferred", driver="deferred", directed_runs=8, quick_runs=1500, thorough_runs=40000,
-                                  oracle=oracle_deferred)
+                                  oracle=oracle_deferred, cov_headers=["gmlc/libguarded/deferred_guarded.hpp"],
+                                  # task_runner is an abstract base: its deleting / complete-object destructor variants are never
+                                  # called (objects die through ~void_runner / ~type_runner, which call the base-object variant:
+                                  # that one is executed), so gcov shows one never-executed instance of this line
+                                  cov_allow=[r"virtual ~task_runner\(\) \{\}"],
+                                  # pure virtual (no body to instantiate); called through the vtable, the two overriders
+                                  # void_runner::run_task / type_runner::run_task are instantiated and executed
+                                  inst_allow=[r"^task_runner::run_task$"])
     PROPS["C06"] = dict(
         lean_files=["ConcVerif/Props/C06.lean"], components=["deferred"], stage="A",
         level_text="Lean 4 theorems (kernel-checked; unbounded threads, tasks, client programs and interleavings; with and without "
